@@ -4,6 +4,7 @@ package shaping
 
 import (
 	"unicode"
+	"unicode/utf8"
 
 	"github.com/go-text/typesetting/di"
 	"github.com/go-text/typesetting/font"
@@ -220,32 +221,107 @@ func (seg *Segmenter) splitByBidi(text Input) {
 	if text.Direction.Progression() == di.TowardTopLeft {
 		def = bidi.RightToLeft
 	}
-	seg.bidiParagraph.SetString(string(text.Text[text.RunStart:text.RunEnd]), bidi.DefaultDirection(def))
-	out, err := seg.bidiParagraph.Order()
-	if err != nil || out.NumRuns() == 0 {
-		seg.output = append(seg.output, text)
-		return
-	}
 
 	input := text // start a rune 0 of the run
-	for i := 0; i < out.NumRuns(); i++ {
-		currentInput := input
-		run := out.Run(i)
-		dir := run.Direction()
-		_, endRune := run.Pos()
-		endRune += text.RunStart // shift by the input run position
-		currentInput.RunEnd = endRune + 1
+	// The bidi algorithm applies to one paragraph at a time: SetString stops
+	// after the first paragraph separator and reports how much it has consumed.
+	for input.RunStart < text.RunEnd {
+		str := string(text.Text[input.RunStart:text.RunEnd])
+		n, _ := seg.bidiParagraph.SetString(str, bidi.DefaultDirection(def))
+		paragraphEnd := text.RunEnd
+		if 0 < n && n < len(str) {
+			paragraphEnd = input.RunStart + utf8.RuneCountInString(str[:n])
+		}
+		paragraphStart := input.RunStart
 
-		// override the direction
-		if dir == bidi.RightToLeft {
-			currentInput.Direction.SetProgression(di.TowardTopLeft)
-		} else {
-			currentInput.Direction.SetProgression(di.FromTopLeft)
+		out, err := seg.bidiParagraph.Order()
+		if err != nil || out.NumRuns() == 0 {
+			// keep the paragraph as it is
+			currentInput := input
+			currentInput.RunEnd = paragraphEnd
+			seg.output = append(seg.output, currentInput)
+			input.RunStart = paragraphEnd
+			continue
 		}
 
-		seg.output = append(seg.output, currentInput)
-		input.RunStart = currentInput.RunEnd
+		for i := 0; i < out.NumRuns(); i++ {
+			currentInput := input
+			run := out.Run(i)
+			dir := run.Direction()
+			_, endRune := run.Pos()
+			endRune += paragraphStart // shift by the paragraph position
+			currentInput.RunEnd = endRune + 1
+			// the last run also holds the paragraph separator, and nothing after it
+			if i == out.NumRuns()-1 || currentInput.RunEnd > paragraphEnd {
+				currentInput.RunEnd = paragraphEnd
+			}
+			if currentInput.RunStart >= currentInput.RunEnd {
+				continue
+			}
+
+			// override the direction
+			if dir == bidi.RightToLeft {
+				currentInput.Direction.SetProgression(di.TowardTopLeft)
+			} else {
+				currentInput.Direction.SetProgression(di.FromTopLeft)
+			}
+
+			seg.output = append(seg.output, currentInput)
+			input.RunStart = currentInput.RunEnd
+		}
+		input.RunStart = paragraphEnd
+
+		// The paragraph separator is at the paragraph level (rule L1): when the last run
+		// goes the other way, give the separator a run of its own.
+		if last := &seg.output[len(seg.output)-1]; paragraphEnd < text.RunEnd || isParagraphSeparator(text.Text[paragraphEnd-1]) {
+			paragraphIsRTL := def == bidi.RightToLeft || firstStrongIsRTL(text.Text[paragraphStart:paragraphEnd])
+			lastIsRTL := last.Direction.Progression() == di.TowardTopLeft
+			if paragraphIsRTL != lastIsRTL && last.RunEnd == paragraphEnd && last.RunEnd-last.RunStart > 1 {
+				separator := *last
+				last.RunEnd--
+				separator.RunStart = last.RunEnd
+				if paragraphIsRTL {
+					separator.Direction.SetProgression(di.TowardTopLeft)
+				} else {
+					separator.Direction.SetProgression(di.FromTopLeft)
+				}
+				seg.output = append(seg.output, separator)
+			}
+		}
 	}
+}
+
+// firstStrongIsRTL applies rules P2 and P3 of the Unicode Bidirectional Algorithm:
+// it reports whether the first strong character of the paragraph, skipping isolates, is
+// right-to-left.
+func firstStrongIsRTL(paragraph []rune) bool {
+	isolates := 0
+	for _, r := range paragraph {
+		props, _ := bidi.LookupRune(r)
+		switch props.Class() {
+		case bidi.LRI, bidi.RLI, bidi.FSI:
+			isolates++
+		case bidi.PDI:
+			if isolates > 0 {
+				isolates--
+			}
+		case bidi.L:
+			if isolates == 0 {
+				return false
+			}
+		case bidi.R, bidi.AL:
+			if isolates == 0 {
+				return true
+			}
+		}
+	}
+	return false
+}
+
+// isParagraphSeparator returns true for the runes with bidi class B
+func isParagraphSeparator(r rune) bool {
+	props, _ := bidi.LookupRune(r)
+	return props.Class() == bidi.B
 }
 
 // lookupDelimIndex binary searches in the list of the paired delimiters,
